@@ -1,11 +1,60 @@
 package main
 
+import (
+	"fmt"
+	"strings"
+)
+
+var c10ErrExceptions = []ErrException{
+	{"p.(*versionSet).createManifest", "record.(*Writer).Close", "deferred cleanup of the half-written NEW manifest on a path that already returns the original error; the old manifest is untouched"},
+	{"osp/remoteobjcat.(*Catalog).createNewCatalogFileLocked", "record.(*Writer).Close", "cleanup of the half-written new catalog file after an error that is being returned"},
+	{"wal.(*dirProber).probeLoop", "vfs.(FS).Create", "disk-health probe on a scratch file: a failure is converted into failedProbeDuration, no user data involved"},
+	{"wal.(*dirProber).probeLoop", "vfs.(File).Write", "disk-health probe (see above)"},
+	{"wal.(*dirProber).probeLoop", "vfs.(File).Sync", "disk-health probe (see above)"},
+	{"wal.(*failoverWriter).closeInternal", "CloseWithLastQueuedRecord", "non-last failover segment: every record it carried was already written and synced by a later writer (comment at the site); the last writer's error IS recorded in lastWriter.err"},
+	{"wal.(*failoverWriter).switchToNewDir", "record.(*LogWriter).Close", "writer that lost the switch race and never received a record"},
+}
+
 func init() {
-	register("C10", []string{".", "./wal", "./record", "./objstorage/objstorageprovider"}, runC10)
+	register("C10", []string{".", "./wal", "./record", "./objstorage/...", "./vfs", "./vfs/atomicfs", "./internal/manifest", "./sstable", "./sstable/blob", "./sstable/block", "./valsep", "./internal/compact"}, runC10)
 	propExplain["C10"] = "Decides the ordering clause of C10: every durability point (directory sync after WAL creation, object-provider sync before a table is named by the MANIFEST, file sync before close) dominates — through its nil-error edge — the acknowledgement that depends on it, in every path of the listed functions. Does not decide the crash model or file-system semantics."
 }
 
+// durabilityCallees is the callee table of C10.E1: calls whose failure means
+// data is not (known to be) durable.
+func durabilityCallees(c *Ctx, rule string) M {
+	return Or(
+		ImplCall(c.Iface(rule, "vfs.File"), "vfs.File", "Sync", "SyncData", "SyncTo", "Write", "WriteAt"),
+		ImplCall(c.Iface(rule, "vfs.FS"), "vfs.FS", "Create", "Rename", "Link", "ReuseForWrite"),
+		ImplCall(c.Iface(rule, "objs.Writable"), "objstorage.Writable", "Write", "Finish"),
+		ImplCall(c.Iface(rule, "objs.Provider"), "objstorage.Provider", "Sync", "Create", "LinkOrCopyFromLocal"),
+		ImplCall(c.Iface(rule, "wal.Manager"), "wal.Manager", "Create"),
+		ImplCall(c.Iface(rule, "wal.Writer"), "wal.Writer", "WriteRecord", "Close"),
+		CallTo("rec.(*Writer).Flush", "rec.(*Writer).Close", "rec.(*Writer).Next",
+			"rec.(*LogWriter).Close", "rec.(*LogWriter).CloseWithLastQueuedRecord", "rec.(*LogWriter).WriteRecord", "rec.(*LogWriter).SyncRecord", "rec.(*LogWriter).SyncRecordGeneralized",
+			"rec.(*LogWriter).flushBlock", "rec.(*LogWriter).syncWithLatency",
+			"afs.(*Marker).Move", "afs.(*Marker).SyncDir",
+			"man.(*VersionEdit).Encode", "p.(*versionSet).UpdateVersionLocked", "p.(*versionSet).createManifest"),
+	)
+}
+
+func enginePkg(path string) bool {
+	for _, bad := range []string{"/cmd/", "/tool", "/internal/testutils", "/metamorphic", "/replay", "/bench", "/internal/mkbench", "/internal/devtools", "/testkeys", "/internal/testkeys", "/errorfs", "/vfstest", "/internal/dsl", "/internal/datatest", "/internal/itertest", "/internal/testkeys", "/internal/ewma", "/scripts", "/internal/lint", "/internal/crdbtest"} {
+		if strings.Contains(path, bad) {
+			return false
+		}
+	}
+	return true
+}
+
 func runC10(c *Ctx) {
+	// C10.E1: errors of durability calls are never dropped (module-wide on thorough; the
+	// packages loaded for this property on quick).
+	n := c.ErrFlow("C10.E1", durabilityCallees(c, "C10.E1"), enginePkg, c10ErrExceptions)
+	if n < 100 {
+		c.Unresolved("C10.E1", fmt.Sprintf("only %d durability call sites found (expected well over 100)", n))
+	}
+
 	// C10.O2a: StandaloneManager.Create: Create|ReuseForWrite ⊢ walDir.Sync ⊢ NewLogWriter; ret✓ passes walDir.Sync
 	if fn := c.Fn("C10.O2a", "wal.(*StandaloneManager).Create"); fn != nil {
 		res := c.Chain("C10.O2a", fn, nil,
